@@ -2,6 +2,11 @@
 """prints the markdown table of seeded breaking changes (from seeded/*/meta.json) used in DESIGN.md section 10"""
 import json, os, glob
 VERIF = os.path.dirname(os.path.dirname(os.path.abspath(__file__)))
+# the latest evaluation of every change on the current checks: seeded/catch_matrix*.json (seed 1), else the evaluation recorded in meta.json
+matrix = {}
+for f in sorted(glob.glob(os.path.join(VERIF, 'seeded', 'catch_matrix*.json'))):
+    for k, v in json.load(open(f)).items():
+        matrix.setdefault(k, {}).update(v)
 rows = []
 for f in sorted(glob.glob(os.path.join(VERIF, 'seeded', 'C*-*', 'meta.json'))):
     m = json.load(open(f))
@@ -16,10 +21,19 @@ for f in sorted(glob.glob(os.path.join(VERIF, 'seeded', 'C*-*', 'meta.json'))):
             how = l.split(':')[0].replace('BROKEN ', ''); break
     kind = (own.get('replay') or {}).get('kind') or ''
     if own.get('caught') and not how: how = 'oracle'
+    mx = matrix.get('%s-%s' % (pid, name), {}).get('1')
+    if isinstance(mx, dict):
+        own = {'caught': mx['caught']}; how = mx.get('stage') or ('oracle' if mx['caught'] else ''); kind = 'failing-input' if mx.get('replay') == 'failing input' else mx.get('replay', '')
+    first = (m.get('earlier_evaluations') or [{}])[0].get('caught', {}).get(pid) if m.get('earlier_evaluations') else m.get('checks', {}).get(pid, {}).get('caught')
     earlier = m.get('earlier_evaluations') or []
     note = ''
-    if earlier and not any(e['caught'].get(pid) for e in earlier) and own.get('caught'):
+    if first is False and own.get('caught'):
         note = 'missed at first; caught after strengthening'
+    if m.get('obsolete'):
+        note = (note + '; ' if note else '') + 'obsolete since the repair a4097d4 (edits the removed formula); last evaluated on b03b0a6'
+        if m.get('after_strengthening', {}).get('caught'): own = {'caught': True}; how = how or 'engine harness'
+    if m.get('rebased'):
+        note = (note + '; ' if note else '') + 'patch re-created on top of a4097d4'
     rows.append((pid, name, ', '.join(m.get('files_changed', [])).replace('include/hep/mc/', ''), '%s/19' % t.get('ok', '?'), 'yes' if m.get('demo_confirms') else 'NO',
                  'yes' if own.get('caught') else 'NO', how + (' + failing input' if kind == 'failing-input' else ' (no-failing-input-found)' if kind else ''), note))
 print('| property | change | files | tests pass | demo confirms | caught | by | note |')
